@@ -18,6 +18,8 @@ def _cases(tier):
             yield {"h": h}
         for h in A.histories(A.ATOM_NAMES + [A.ABSENT, "L(null)", "L(int)", "O(k:int)", "O(k:null)", "L(O(k:int))"], 3, 3):
             yield {"h": h}
+        for h in A.histories(two, 3, 3):
+            yield {"h": h}
         gmax = 3
     else:
         for h in A.histories(one, 3):
@@ -30,6 +32,12 @@ def _cases(tier):
     for spec in A.graph_specs(gmax):
         for merge in pipeline.MERGE_POLICIES:
             yield {"h": [["G", spec]], "merge": merge, "dkr": [r"k\d"]}
+    # merged models whose shared field varies (required in one member, present / absent / other kind in the others)
+    for v0 in A.VARIED_ATOMS:
+        for v1 in A.VARIED_ATOMS:
+            for v2 in A.VARIED_ATOMS:
+                for rf in (False, True):
+                    yield {"h": [["J", A.varied_merge_samples(v0, v1, v2, rf)[0]]], "vm": [v0, v1, v2, rf]}
     # literal hard limits: 15/16 distinct strings, length 19/20
     for n in (1, 2, 14, 15, 16, 17):
         for extra in ([], ["y" * 19], ["y" * 20], [None], ["1"]):
@@ -114,6 +122,8 @@ def execute(case):
         shape = sorted({x for s in case["h"] for x in ([s] if isinstance(s, str) else [s[1], s[2]])})
     if any(isinstance(s, list) and s[0] == "J" for s in case["h"]):
         shape = ["J:" + core.digest(case["h"])]
+    if "vm" in case:
+        shape = sorted({f"vm:{x}" for x in case["vm"][:3]}) + (["rows_first"] if case["vm"][3] else [])
     viol = []
     try:
         b = pipeline.build(samples, types=pipeline.ALL_TYPES, dkr=case.get("dkr"), dkf=case.get("dkf"),
